@@ -37,7 +37,7 @@ class Report:
         self.provider_logs = {}
 
 
-def run_spec(spec, *, connect_only=False, memory=None, location="spill", check_model=True):
+def run_spec(spec, *, connect_only=False, memory=None, location="spill", check_model=True, listeners=None, on_built=None):
     install()
     REC.reset()
     rep = Report()
@@ -109,6 +109,10 @@ def run_spec(spec, *, connect_only=False, memory=None, location="spill", check_m
     REC.on("out_get_data", on_out_get_data)
     REC.on("in_pull_data_err", on_pull_err)
     REC.on("ada_finalize", on_ada_finalize)
+    for ev, fn in (listeners or {}).items():
+        REC.on(ev, fn)
+    if on_built:
+        on_built(b)
     start = T0 + H(spec["start"])
     try:
         rep.phase = "connect"
